@@ -63,6 +63,16 @@ DIRECTED = [
     # cancel before / after send
     [{"a": "Start", "i": 1}, {"a": "Start", "i": 2}, {"a": "Cancel", "i": 1}, {"a": "FirstSend", "i": 1, "ok": "ok"},
      {"a": "FirstSend", "i": 2, "ok": "fail"}, {"a": "RetrySel", "i": 1, "br": "ctx"}, {"a": "WaitSel", "i": 1, "br": "ctx"}],
+    # result routed (handler claimed) while the caller cancels: the call reports the cancellation or the result's error
+    [{"a": "Start", "i": 1}, {"a": "FirstSend", "i": 1, "ok": "ok"}, {"a": "NotifyAck", "i": 1}, {"a": "RetrySel", "i": 1, "br": "ack"},
+     {"a": "Lookup", "j": 1, "i": 1, "k": "err"}, {"a": "Cas", "j": 1}, {"a": "Cancel", "i": 1}, {"a": "WaitSel", "i": 1, "br": "ctx"}, {"a": "Decode", "j": 1}],
+    # graceful Close waits; a following ForceClose must still cancel the pending calls
+    [{"a": "Start", "i": 1}, {"a": "Start", "i": 2}, {"a": "FirstSend", "i": 1, "ok": "ok"}, {"a": "FirstSend", "i": 2, "ok": "ok"},
+     {"a": "NotifyAck", "i": 1}, {"a": "RetrySel", "i": 1, "br": "ack"}, {"a": "GC"}, {"a": "Start", "i": 3}, {"a": "FC"}],
+    # a retransmission the transport refuses ends the call (trace 1 mod 2: timers run out afterwards)
+    [{"a": "Start", "i": 1}, {"a": "FirstSend", "i": 1, "ok": "ok"}, {"a": "Tick"}, {"a": "RetrySel", "i": 1, "br": "timer", "ok": "fail"}],
+    [{"a": "Start", "i": 1}, {"a": "Start", "i": 2}, {"a": "FirstSend", "i": 1, "ok": "ok"}, {"a": "FirstSend", "i": 2, "ok": "ok"}, {"a": "Tick"},
+     {"a": "RetrySel", "i": 1, "br": "timer", "ok": "fail"}, {"a": "RetrySel", "i": 2, "br": "timer", "ok": "ok"}],
 ]
 
 
@@ -97,6 +107,8 @@ def run(pid, replay=None):
         if s.timeout or not s.lines:
             raise vlib.Infra("simulate failed: " + s.raw[-800:])
         behs = [{"hist": h} for h in DIRECTED] + [{"hist": h} for h in maximal_runs(s.lines)]
+        for k, b in enumerate(behs):
+            b["runout"] = (k % 2 == 1)
         log("behaviours: %d directed + %d simulated" % (len(DIRECTED), len(behs) - len(DIRECTED)))
         free_n = 3000 if thorough else 300
     binp = vlib.build_driver(pid, "rpcdrv")
